@@ -22,7 +22,12 @@ META = {
              "sharding added or removed, flat/gzip options, with or without "
              "--copy-info); convert-chunks runs in-process with atexit "
              "handlers captured. non-trivial = >= 2 scales or an encoding / "
-             "sharding / data-type change; distinct by the whole case."),
+             "sharding / data-type change; distinct by the whole case."
+             ' Also: scales listing two chunk sizes, per-scale block sizes'
+             ', piecewise-constant and fingerprint-colliding labels, desti'
+             'nation compressed_segmentation files decoded from the format'
+             ' description, a warm-up on a uint32 segmentation in the same'
+             ' process.'),
     "trusted_base": ["vlib/refs/dtype_ref.py", "vlib/httpd.py",
                      "in-memory source arrays"],
 }
